@@ -316,7 +316,7 @@ def samples_from(events, n=3):
 
 REQUIRED_ANTS = {
     "C01": ["RoundTrip"], "C02": ["Released"], "C03": ["Distinct", "FalseAcceptProbe"], "C04": ["UninitDependence"],
-    "C05": ["FailClosed", "FailClosedStaleErrno", "ShortSizes"], "C06": ["Shape"], "C07": ["Result", "ResultNonzeroErrno", "UninitDependence"],
+    "C05": ["FailClosed", "FailClosedStaleErrno", "ShortSizes", "KdfParams"], "C06": ["Shape"], "C07": ["Result", "ResultNonzeroErrno", "UninitDependence"],
     "C08": ["AsIfAlone"], "C09": ["Wiped"], "C14": ["Handle", "Grow"], "C15": ["Balanced"], "C20": ["Result", "FailClosed"],
     "C19": ["Result", "Released", "UninitDependence", "FailClosed"],
 }
